@@ -550,7 +550,7 @@ pub const C27: Check = Check {
     assumptions: &["whole-cache runs with a corrupted file are exercised by the subprocess legs (C23/C41) rather than here"],
     shards: |_| 16,
     watchdog: |t| Duration::from_secs(t.pick(600, 3600)),
-    budget: |t| Duration::from_secs(t.pick(40, 600)),
+    budget: |t| Duration::from_secs(t.pick(40, 300)),
     run: run_c27,
     crash_is_violation: true,
     finish: None,
